@@ -1,0 +1,8 @@
+//go:build !verif
+
+// Package verifhook is an observation hook for the runtime monitors in /verif.
+// Without the build tag "verif" it does nothing.
+package verifhook
+
+// Emit does nothing in regular builds.
+func Emit(site string, in []string, out string) {}
